@@ -126,6 +126,8 @@ def run(ctx):
             ctx.cov["traces_validated_against_impl"] += len(part)
         ctx.info.append("%d runs compared with the model's terminal state inside Coq (<= 120 requests, <= 16 workers); "
                         "all %d runs judged by the property on the implementation's observation" % (len(small), len(rows)))
+    if not quick:
+        ctx.harness_race_run("c08", ["-out", "race.jsonl", "-seed", ctx.seed + 5, "-n", 40, "-cancel", 150, "-maxreq", 1500], "in the engine under load")
     if ctx.broken and not ctx.findings and os.path.exists(os.path.join(verif.ROOT, "harness", "bin", "c08")):
         for gmp, n in (("1", 60), ("2", 60), ("16", 120)):
             for o in run_harness(ctx, n, ctx.seed + 100 + int(gmp), name="search_g%s.jsonl" % gmp, env={"GOMAXPROCS": gmp}):
